@@ -1,6 +1,6 @@
 (* C15 — GDB mode follows libwayland's connections as they come and go. *)
 From WD Require Import Base Wire Protocol Conn Color LetterId Matcher MatcherParse Show Session.
-From WD Require Import ControllerProofs SessionProofs ConnMgrProofs GdbProofs.
+From WD Require Import ControllerProofs SessionProofs ConnMgrProofs GdbProofs IsolationRuns GdbRunsA GdbRunsB.
 Open Scope Z_scope.
 
 (* destruction of any connection (known, already closed, never seen): no exception, False to GDB,
@@ -34,6 +34,63 @@ Theorem C15_names : forall P es d st c u g,
   names_ok (t_sess (fst (run P (mkTop None (init_sess d st c u g)) es))).
 Proof. intros. apply names_sequential. apply names_ok_init. Qed.
 Print Assumptions C15_names.
+
+(* ---- WHOLE RUNS (Proofs/GdbRunsA/B.v): any sequence of closure / connection-destroy / command events ------------
+   lifetimes evs is read off the event list alone: for each address, the maximal runs of its messages between
+   its destroys, in order of first message; a destroy of an address with no live lifetime changes nothing. *)
+
+(* one connection per lifetime, in that order, named A, B, C, ...; open iff not destroyed since; every message
+   of the lifetime recorded; role from the lifetime's first message *)
+Theorem C15_conns_are_lifetimes : forall P d st c u evs,
+  forallb gdb_event evs = true ->
+  let cs := s_conns (t_sess (fst (run P (mkTop None (init_sess d st c u true)) evs))) in
+  let L := lifetimes evs in
+  List.length cs = List.length L /\
+  map c_name cs = names_list (List.length L) /\
+  map c_id cs = map lt_addr L /\
+  map c_open cs = map lt_open L /\
+  map c_server cs = map lt_sv L /\
+  map (fun c => List.length (c_msgs c)) cs = map (fun l => List.length (lt_msgs l)) L.
+Proof. exact gdb_conns_are_lifetimes. Qed.
+Print Assumptions C15_conns_are_lifetimes.
+
+(* an address is live iff the last event concerning it is a message *)
+Theorem C15_live_iff_last_is_message : forall evs a, has_live a (lifetimes evs) = live_after a evs.
+Proof. exact live_iff_last_is_message. Qed.
+
+(* what is recorded for a lifetime (everything but name and time origin) is what its messages produce ALONE from
+   a fresh state: a later connection at the same address has a fresh object table; other addresses, destroys of
+   other or never-seen addresses, commands and thread numbers play no part.  Unconditional: gdb mode has no
+   decoding switch. *)
+Theorem C15_lifetime_is_solo : forall P d st c u evs i l th,
+  forallb gdb_event evs = true ->
+  nth_error (lifetimes evs) i = Some l ->
+  let T0 := mkTop None (init_sess d st c u true) in
+  exists cm cs,
+    nth_error (s_conns (t_sess (fst (run P T0 evs)))) i = Some cm /\
+    s_conns (t_sess (fst (run P T0 (solo_events th l)))) = [cs] /\
+    untimed (conn_view cm) = untimed (conn_view cs) /\
+    untimed (conn_view cm) = lt_view P l /\
+    c_name cm = conn_name (N.of_nat i) /\ c_name cs = conn_name 0.
+Proof. exact gdb_lifetime_is_solo. Qed.
+Print Assumptions C15_lifetime_is_solo.
+
+Theorem C15_threads_irrelevant : forall P d st c u g ob evs evs',
+  forallb gdb_event evs = true ->
+  map forget_thread evs = map forget_thread evs' ->
+  s_conns (t_sess (fst (run P (mkTop ob (init_sess d st c u g)) evs))) =
+  s_conns (t_sess (fst (run P (mkTop ob (init_sess d st c u g)) evs'))).
+Proof. exact gdb_threads_irrelevant. Qed.
+Print Assumptions C15_threads_irrelevant.
+
+(* exceptions escaping to GDB: exactly the messages whose resolution against their own lifetime's table raises
+   (delete_id of an id never created, ill-typed delete_id: outside libwayland-emittable traffic, O6); destroys
+   and commands never raise *)
+Theorem C15_raises_exactly : forall P d st c u evs,
+  forallb gdb_event evs = true ->
+  map raises (snd (run P (mkTop None (init_sess d st c u true)) evs)) = map opt_list (err_trace P [] evs).
+Proof. exact gdb_run_raises_exactly. Qed.
+Print Assumptions C15_raises_exactly.
 
 Definition gr (t : Z) := mkPmsg t (Some (s2l "wl_display")) 1 true (s2l "get_registry") [PObj 2 (Some (s2l "wl_registry")) true].
 Example C15_ex :
